@@ -353,12 +353,9 @@ class CheckerHistoryStream(Stream):
         return out
 
     def impl(self, c):
-        out = self._run(c)
-        return 'SKIP re.error' if 'SKIP' in out else ','.join(out)
+        return ','.join(self._run(c))
 
     def oracle(self, c, obs):
-        if obs.startswith('SKIP'):
-            return None
         fresh = ','.join(self._run(c, fresh=True))
         if fresh != obs:
             return 'answers depend on what the checker was asked before: %s, fresh checkers answer %s' % (obs, fresh)
